@@ -34,7 +34,7 @@ VARIABLES loc,         \* loc[g]: where group g's GroupState is
 pvars == <<loc, runner, atask, slotN, localN, remaining, delayQ, nerrors, scopeEnd>>
 
 Locs == {"unborn", "activating", "running", "spawning", "parked", "delayed", "dropped"}
-APcs == {"start", "activating", "working", "dec", "drain", "workingDelayed", "done"}
+APcs == {"start", "activating", "pushing", "working", "dec", "drain", "workingDelayed", "done"}
 NoTask == -1
 SpawnedTask == -2
 
@@ -97,20 +97,26 @@ ErrPush ==
     /\ nerrors' = nerrors + 1
     /\ UNCHANGED <<loc, runner, atask, slotN, localN, remaining, delayQ, scopeEnd>>
 
-(* End of the activation loop: either queue the group for delayed processing or start working. *)
+(* End of the activation loop: a delayed group is about to be queued, any other starts working. *)
 ActEnd(g) ==
     /\ atask[g] = "activating"
     /\ IF g \in Delayed
-       THEN /\ Len(delayQ) < 1      \* ArrayQueue::new(1) ... push(..).unwrap()
-            /\ delayQ' = Append(delayQ, g)
-            /\ loc' = [loc EXCEPT ![g] = "delayed"]
-            /\ atask' = [atask EXCEPT ![g] = "dec"]
+       THEN /\ loc' = [loc EXCEPT ![g] = "delayed"]
+            /\ atask' = [atask EXCEPT ![g] = "pushing"]
             /\ UNCHANGED runner
        ELSE /\ loc' = [loc EXCEPT ![g] = "running"]
             /\ runner' = [runner EXCEPT ![g] = g]
             /\ atask' = [atask EXCEPT ![g] = "working"]
-            /\ UNCHANGED delayQ
-    /\ UNCHANGED <<slotN, localN, remaining, nerrors, scopeEnd>>
+    /\ UNCHANGED <<slotN, localN, remaining, delayQ, nerrors, scopeEnd>>
+
+(* delay_processing.push(group): only afterwards does the task decrement activations_remaining, so
+   whoever brings the counter to zero finds the delayed group in the queue. *)
+DelayPush(g) ==
+    /\ atask[g] = "pushing"
+    /\ Len(delayQ) < 1      \* ArrayQueue::new(1) ... push(..).unwrap()
+    /\ delayQ' = Append(delayQ, g)
+    /\ atask' = [atask EXCEPT ![g] = "dec"]
+    /\ UNCHANGED <<loc, runner, slotN, localN, remaining, nerrors, scopeEnd>>
 
 (* do_pending_work pops one item from the local queue and handles it. *)
 Item(g) ==
@@ -214,7 +220,7 @@ ScopeEnd ==
 PNext ==
     \/ \E g \in Groups : ActBegin(g) \/ SendLocal(g) \/ Send(g) \/ ActEnd(g) \/ Item(g) \/ Fail(g)
                          \/ SlotPark(g) \/ SlotSwap(g) \/ TaskStart(g) \/ Dec(g) \/ DrainEmpty(g)
-                         \/ ItemFail(g) \/ ItemErr(g)
+                         \/ ItemFail(g) \/ ItemErr(g) \/ DelayPush(g)
     \/ \E a, d \in Groups : DelayPop(a, d)
     \/ ErrPush
     \/ ScopeEnd
@@ -251,9 +257,12 @@ OneGroupPerTask ==
 
 DelayQBounded == Len(delayQ) <= 1
 
+(* Nobody can see the counter at zero while a delayed group is still on its way into the queue. *)
+DelayedQueuedBeforeZero == remaining = 0 => \A d \in Delayed : atask[d] \notin {"start", "activating", "pushing"}
+
 (* A dropped worker implies the link fails: its error is in the queue. *)
 DroppedMeansError == (\E g \in Groups : loc[g] = "dropped") => nerrors > 0
 
 PInv == PTypeOK /\ NoLostRequest /\ ParkedMeansEmpty /\ DelayedAfterActivation
-        /\ RunnerConsistent /\ OneGroupPerTask /\ DelayQBounded /\ DroppedMeansError
+        /\ RunnerConsistent /\ OneGroupPerTask /\ DelayQBounded /\ DroppedMeansError /\ DelayedQueuedBeforeZero
 =============================================================================
